@@ -17,6 +17,8 @@ pub use runtime::{Appender, Config, Logger, Root};
 
 #[cfg(feature = "config_parsing")]
 pub use self::file::{init_file, load_config_file, FormatError};
+#[cfg(all(feature = "config_parsing", feature = "verif_hooks"))]
+pub use self::file::VerifReloader;
 #[cfg(feature = "config_parsing")]
 pub use self::raw::{Deserializable, Deserialize, Deserializers, RawConfig};
 
